@@ -317,12 +317,25 @@ def check_c04(tier, seed):
     os.makedirs(clidir)
 
     skipped_docs = []
+    killed = []
 
     def shard(i):
         args = ["c04", "-tier", tier, "-corpus", sc.corpus_path, "-seed", str(seed), "-shard", str(i), "-nshard", str(nshard), "-clisamples", clidir]
         if tier == "thorough":
             args += ["-budget", "1500"]  # documents are taken smallest first; what did not fit is reported in the evidence
-        rc, lines, err = vlib.run_chunk(harness, args, {"GOMAXPROCS": "2"}, 7200 if tier == "thorough" else 900)
+        rc, lines, err = vlib.run_chunk(harness, args, {"GOMAXPROCS": "1" if i % 2 else "2"}, 7200 if tier == "thorough" else 900)
+        if not any("shard_done" in l for l in lines) and ("panic:" in err or "fatal error:" in err):
+            # the driver process was killed by a panic it cannot recover: one raised in a goroutine the library started.
+            # Run the shard again with call tracing to learn which unreadable document was being validated.
+            rc2, lines2, err2 = vlib.run_chunk(harness, args, {"GOMAXPROCS": "1" if i % 2 else "2", "SIM_C04_TRACE": "1"}, 7200 if tier == "thorough" else 1800)
+            marks = [l for l in err2.splitlines() if l.startswith("C04TRACE ")]
+            if not any("shard_done" in l for l in lines2) and marks and ("panic:" in err2 or "fatal error:" in err2):
+                m = json.loads(marks[-1][9:])
+                first = next((l for l in err2.splitlines() if l.startswith("panic:") or l.startswith("fatal error:")), "panic")
+                killed.append({"profile": m["profile"], "data": m["data"], "fault": m["fault"], "entry": m["entry"], "class": "process_killed_for_unreadable",
+                               "sig": "process_killed_for_unreadable:" + m["kind"], "reason": m["reason"], "detail": "the whole process died while validating this unreadable document: " + first[:200], "doc_len": m["doc_len"]})
+                return [l for l in lines2 if "profile" in l]
+            raise HarnessError("c04 shard %d ended unexpectedly (rc=%d) and the traced re-run did not die the same way: %s" % (i, rc, err[-2000:]))
         if not any("shard_done" in l for l in lines):
             raise HarnessError("c04 shard %d ended unexpectedly (rc=%d): %s" % (i, rc, err[-3000:]))
         skipped_docs.append(sum(l.get("documents_skipped_for_budget", 0) for l in lines if "shard_done" in l))
@@ -347,6 +360,7 @@ def check_c04(tier, seed):
         distinct += d["distinct_unreadable_texts"]
         viols += d.get("violations") or []
     n_lib_viol = sum(d["n_violations"] for d in docs)
+    viols += killed
 
     # CLI half: the instrumented binary over the simulated disk
     cli = c04_cli(sc, simacv, clidir, seed, tier)
@@ -444,7 +458,7 @@ def c04_cli(sc, simacv, clidir, seed, tier):
                 argv.append("out.json")
             if mode == "out_existing":
                 files["/work/out.json"] = (prior, 0o644)
-            rc, so, se, img = run_simacv(sc, simacv, argv, disk_image(files), {"SIM_NOW": "975369600"})
+            rc, so, se, img = run_simacv(sc, simacv, argv, disk_image(files), {"SIM_NOW": "975369600", "GOMAXPROCS": "1" if i % 2 else "4"})
             why = None
             if rc == 0:
                 why = "exit status 0"
@@ -514,7 +528,7 @@ def c18_pairs(sc, tier):
         if p["size"] > 6000 and tier == "quick" and p["class"] != "special":
             continue
         for d in p["data"]:
-            if d["size"] <= (40000 if tier == "quick" else 400000):
+            if d["size"] <= (40000 if tier == "quick" else 400000) or p["class"] == "special":
                 pp = p["path"] if os.path.isabs(p["path"]) else os.path.join(sc.src, p["path"])
                 dp = d["path"] if os.path.isabs(d["path"]) else os.path.join(sc.src, d["path"])
                 pairs.append((pp, dp))
